@@ -86,9 +86,9 @@ def dump(h, path):
     return recs, r
 
 
-def bound_str(ns):
-    y, mo, d, hh, mi, s, n, _ = gen.civil(ns, 0)
-    return "%04d-%02d-%02dT%02d:%02d:%02d.%06d+00:00" % (y, mo, d, hh, mi, s, n // 1000)
+def bound_str(ns, off=0):
+    y, mo, d, hh, mi, s, n, _ = gen.civil(ns, off)
+    return "%04d-%02d-%02dT%02d:%02d:%02d.%06d%s" % (y, mo, d, hh, mi, s, n // 1000, gen.off_str(off))
 
 
 def job(args):
@@ -163,7 +163,8 @@ def run(ctx):
                 kw = {"split": rng.choice([65536, 5000]), "stored": True} if cont == "lz4" else {}
                 path = gen.write(p + "." + cont, gen.contain(data, cont, **kw))
             for a, b, wk in (wins if cont is None else wins[:2]):
-                wargs = (["-a", bound_str(a)] if a is not None else []) + (["-b", bound_str(b)] if b is not None else [])
+                wargs = (["-a", bound_str(a, rng.choice([0, 0, 330, -480, 765]))] if a is not None else []) + \
+                        (["-b", bound_str(b, rng.choice([0, 0, 330, -480, 765]))] if b is not None else [])
                 jobs.append((s4, path, wargs, d, rng.choice([65536, 4096, 1 << 20])))
                 meta.append((base, vname, cont, a, b, wk, recs))
     plain_out = {}
